@@ -9,7 +9,8 @@ PROC_TIMEOUT = 900
 #   reply   := st.ty.src.cc.mc.fill.len.fr   (status, response type (9 = NULL response), source uid,
 #              command class, message count, data = fill x len (the mock prepends the id of the request
 #              it answers unless len = 0: then the response has no parameter data), number of frames;
-#              the response's PID is 100 + fill mod 7)
+#              the response's PID is 100 + fill mod 7, its destination UID 0002:(2 + fill mod 3), its
+#              transaction number fill mod 5, its sub-device fill mod 4)
 #   mscript := '-' | item(,item)*   item := 'L' (answer later) | 'Y'reply (answer inside SendRDMRequest)
 #              -- what the underlying controller does with its k-th SendRDMRequest call
 #   dscript := '-' | [01]*          1 = discovery run k completes inside RunFull/IncrementalDiscovery
@@ -22,7 +23,7 @@ PROC_TIMEOUT = 900
 #   The controller is destroyed after the last op; the completion callbacks the destructor runs are live
 #   (S/P/R are executed; F/I/D/E are not: the derived part of the object is gone, the underlying controller does
 #   not answer a dying controller).
-# Result keys: comp = every completion in order as id:kind:status:type.src.cc.mc.pid:data (property level: exactly
+# Result keys: comp = every completion in order as id:kind:status:type.src.cc.mc.pid.dst.tn.sub:data (property level: exactly
 #   once, order, own reply, concatenation), t = per-top-level-op trace of calls reaching the underlying controller (S<id>, X<full>) and of
 #   user callbacks (C<id>:<kind>:<status>:<response>:f<frames>, K<did>@<run>), i = internal flags after
 #   every op, and the property verdicts computed independently by the harness from what the mock and the
@@ -69,13 +70,13 @@ LEVEL_TEXT = ('Coq theorems over an executable small-step model (explicit call-s
               'exactly, limit 4096 inclusive, type/PID/message count of the result), nothing of a session leaks into '
               'another request; discovery requests each taken by exactly one run that takes all waiting ones and is '
               'full iff one asked for full; progress: an active idle controller has nothing waiting once the call stack '
-              'is empty; and the verdict values the model prints are proved constant.  Tied to the C++ by a differential '
+              'is empty; and the verdict values the model prints, the discovery verdict included, are proved constant; destruction after any prefix, step by step.  Tied to the C++ by a differential '
               'correspondence check after every operation (ASan/UBSan build of the working tree).')
 LEVEL_NOTE = ('Trusted: Coq kernel, extraction (ExtrOcamlBasic), OCaml/C++ glue, generator coverage of the '
               'correspondence; model = code is validated by differential testing, not proved.  Destruction is '
               'modelled as the last operation of a history, with live callbacks (submit/pause/resume).  Liveness is proved only in the form of c12_progress '
               '(nothing waits at quiescence); eventual answers of the underlying controller are inputs.  The verdict keys '
-              'conc/ps/dup/ooo/bad/lost/rj/dv are computed independently by the C++ harness and by the extracted model.')
+              'conc/ps/dup/ooo/bad/lost/rj/dv are computed independently by the C++ harness; the model-side values are proved constants.')
 TECHNIQUE = 'Coq invariant proofs on a hand-written executable state-machine model + extracted-model/implementation differential correspondence'
 DESIGN_REF = 'DESIGN.md §4 C12'
 
